@@ -111,7 +111,7 @@ pub fn child(root: &str, tier: &str) -> i32 {
     let mut samples: Vec<Value> = Vec::new();
     let res: Result<(), String> = rt.block_on(async {
         let sys = crate::sys::Sys::start(cfg.clone(), &root).await;
-        let define = "DEFINE w FIELDS { i: \"int\", u: \"u64\", f: \"float\", s: \"string\", b: \"bool\", e: [\"x\", \"y\", \"z\"], d: \"datetime\" }";
+        let define = "DEFINE w FIELDS { i: \"int\", u: \"u64\", f: \"float\", s: \"string\", b: \"bool\", e: [\"x\", \"y\", \"z\"], d: \"datetime\", od: \"datetime | null\" }";
         let r = sys.exec(define).await;
         if !r.ok() {
             return Err(format!("define failed: {} {}", r.status, r.message));
@@ -348,6 +348,11 @@ pub fn child(root: &str, tier: &str) -> i32 {
                     for (field, _, vals) in &alph {
                         payload.insert(field.to_string(), vals[idx % vals.len()].clone());
                     }
+                    // optional instant: every row of an even zone lacks it (a zone without any value
+                    // in front of zones that have some), odd zones carry the value of `d`
+                    if zi % 2 == 1 {
+                        payload.insert("od".to_string(), alph[6].2[idx % 14].clone());
+                    }
                     let r = sys.exec(&format!("STORE w FOR pc PAYLOAD {}", Value::Object(payload))).await;
                     if !r.ok() {
                         return Err(format!("pipeline STORE failed: {} {}", r.status, r.message));
@@ -446,6 +451,50 @@ pub fn child(root: &str, tier: &str) -> i32 {
                         };
                         findings.push(Finding {
                             class: format!("planner + pruners on flushed segments: {kind} column, {opk}, {litkind}"),
+                            detail: format!("{text}: {} zones holding a match are not candidates, e.g. {:?}", missed.len(), missed.iter().take(3).collect::<Vec<_>>()),
+                        });
+                    }
+                }
+            }
+        }
+        {
+            let vals = &alph[6].2;
+            let mut lits: Vec<Value> = vals.clone();
+            lits.extend([json!(1699990000), json!(1700100000)]);
+            for lit in &lits {
+                for op in ["=", "<", "<=", ">", ">="] {
+                    let text = format!("QUERY w WHERE od {op} {lit}");
+                    let Ok(cmd) = snel_db::command::parser::parse_command(&text) else { continue };
+                    let Some(plan) = snel_db::engine::core::QueryPlan::new(cmd, &sys.registry, &base, &seg_ids, None).await else { continue };
+                    let exec = snel_db::engine::core::QueryExecution::new(&plan);
+                    let zones = snel_db::engine::core::zone::zone_collector::ZoneCollector::new(&plan, exec.steps().to_vec()).collect_zones();
+                    let got: BTreeSet<(String, u32)> = zones.iter().map(|z| (z.segment_id.clone(), z.zone_id)).collect();
+                    probes += 1;
+                    let mut missed: Vec<String> = Vec::new();
+                    for (key, rows) in &truth_idx {
+                        if key.1 % 2 == 0 {
+                            continue; // no row of an even zone has the field
+                        }
+                        let m = rows.iter().any(|idx| match cmp_vals(&vals[idx % vals.len()], lit) {
+                            Some(o) => match op {
+                                "=" => o == std::cmp::Ordering::Equal,
+                                "<" => o == std::cmp::Ordering::Less,
+                                "<=" => o != std::cmp::Ordering::Greater,
+                                ">" => o == std::cmp::Ordering::Greater,
+                                _ => o != std::cmp::Ordering::Less,
+                            },
+                            None => false,
+                        });
+                        if m {
+                            nontrivial += 1;
+                            if !got.contains(key) {
+                                missed.push(format!("{}:{}", key.0, key.1));
+                            }
+                        }
+                    }
+                    if !missed.is_empty() {
+                        findings.push(Finding {
+                            class: format!("planner + pruners on flushed segments: optional datetime column (absent in every second zone), {}", if op == "=" { "=" } else { "range" }),
                             detail: format!("{text}: {} zones holding a match are not candidates, e.g. {:?}", missed.len(), missed.iter().take(3).collect::<Vec<_>>()),
                         });
                     }
